@@ -110,7 +110,18 @@ def candidates(rel, seed):
         for a, b in ((".to_lowercase()", ""), (".to_ascii_lowercase()", ""), ("read_le", "read_be"), ("read_be", "read_le"),
                      ("SeekFrom::Start", "SeekFrom::Current"), ("big", "little"), ("little", "big"),
                      ("pad_before", "pad_after"), ("pad_after", "pad_before"), (" as u16", " as u8"), (" as u32", " as u16"),
-                     (" as u64", " as u32"), ("wrapping_add", "wrapping_sub"), (".min(", ".max("), (".max(", ".min(")):
+                     (" as u64", " as u32"), ("wrapping_add", "wrapping_sub"), (".min(", ".max("), (".max(", ".min("),
+                     # second operator set (run 2)
+                     (" + 1", ""), (" - 1", ""), (".first()", ".last()"), (".last()", ".first()"), (".find(", ".rfind("),
+                     (".rfind(", ".find("), (".split_once(", ".rsplit_once("), (".rsplit_once(", ".split_once("),
+                     ("starts_with", "ends_with"), ("from_le_bytes", "from_be_bytes"), ("from_be_bytes", "from_le_bytes"),
+                     ("checked_add", "wrapping_add"), ("checked_sub", "wrapping_sub"), ("checked_mul", "wrapping_mul"),
+                     ("saturating_sub", "wrapping_sub"), (".position(", ".rposition("), (" as i32", " as i16"),
+                     (" as usize", " as u16 as usize"), ("continue;", "break;"), ("u32::try_from", "u16::try_from"),
+                     ("usize::try_from", "u16::try_from"), (".trim_end_matches(", ".trim_matches("),
+                     (".to_ascii_lowercase()", ".to_ascii_uppercase()"), (".to_lowercase()", ".to_uppercase()"),
+                     (".iter().enumerate()", ".iter().rev().enumerate()"), (".skip(", ".take("), (".take(", ".skip("),
+                     (" as u8", " as i8 as u8"), ("i64", "i32"), ("u64", "u32"), ("..", "..=")):
             for m in re.finditer(re.escape(a), code):
                 out.append({"file": rel, "line": ln, "col": m.start(), "old": a, "new": b, "kind": "swap"})
         s = code.strip()
@@ -154,6 +165,9 @@ def cmd_gen(argv):
         if not os.path.exists(os.path.join(REPO, f)):
             continue
         cs = candidates(f, seed)
+        if os.environ.get("MUT_NEWS"):   # only replacements whose new text is listed (comma separated)
+            news = set(os.environ["MUT_NEWS"].split(","))
+            cs = [c for c in cs if c["new"].strip() in news or (c["new"] == "" and c["kind"] == "swap")]
         rng.shuffle(cs)
         # spread over distinct lines first
         seen, pick = set(), []
@@ -167,6 +181,12 @@ def cmd_gen(argv):
         print("%-40s %4d candidates, %d picked" % (f, len(cs), len(pick)))
         allc += pick
     rng.shuffle(allc)
+    # mutants of earlier runs (notes/mutants-run*.json) are not drawn again
+    seen = set()
+    for pj in glob.glob(os.path.join(ROOT, "notes", "mutants-run*.json")):
+        for r in json.load(open(pj)):
+            seen.add((r["file"], r["line"], r["col"], r["new"]))
+    allc = [c for c in allc if (c["file"], c["line"], c["col"], c["new"]) not in seen]
     json.dump(allc, open(out, "w"), indent=0)
     print(len(allc), "mutants ->", out)
 
